@@ -83,6 +83,8 @@ struct UserSpatialMap
             g_spatialMapCallLog->push_back(this);
     }
     int mode(int index) const { return cfg.modes[(size_t)(index < 0 ? 0 : index) % cfg.modes.size()]; }
+    // the map of every waypoint is different (per-waypoint boxes / corridors): scale factor depending on the index
+    double fi(int index) const { return 1.0 + 0.13 * ((index < 0 ? 0 : index) % 4); }
     int getUnconstrainedDim(int index) const
     {
         note();
@@ -101,16 +103,16 @@ struct UserSpatialMap
         {
         case 0:
             for (int j = 0; j < dim; ++j)
-                p(j) = cfg.o[j] + cfg.S * xi(j);
+                p(j) = cfg.o[j] + cfg.S * fi(index) * xi(j);
             break;
         case 1:
             p(0) = cfg.c[0] + xi(0);
             for (int j = 1; j < dim; ++j)
-                p(j) = cfg.c[j] + cfg.a[j] * std::sin(xi(0) + cfg.phi[j]);
+                p(j) = cfg.c[j] + cfg.a[j] * fi(index) * std::sin(xi(0) + cfg.phi[j]);
             break;
         default:
             for (int j = 0; j < dim; ++j)
-                p(j) = xi(j) + 0.3 * xi(dim) * cfg.w[j];
+                p(j) = xi(j) + 0.3 * fi(index) * xi(dim) * cfg.w[j];
             break;
         }
         return p;
@@ -124,7 +126,7 @@ struct UserSpatialMap
         {
             Eigen::VectorXd xi(dim);
             for (int j = 0; j < dim; ++j)
-                xi(j) = (p(j) - cfg.o[j]) / cfg.S;
+                xi(j) = (p(j) - cfg.o[j]) / (cfg.S * fi(index));
             return xi;
         }
         case 1:
@@ -151,7 +153,7 @@ struct UserSpatialMap
         {
             Eigen::VectorXd r(dim);
             for (int j = 0; j < dim; ++j)
-                r(j) = cfg.S * g(j);
+                r(j) = cfg.S * fi(index) * g(j);
             return r;
         }
         case 1:
@@ -159,7 +161,7 @@ struct UserSpatialMap
             Eigen::VectorXd r(1);
             r(0) = g(0);
             for (int j = 1; j < dim; ++j)
-                r(0) += g(j) * cfg.a[j] * std::cos(xi(0) + cfg.phi[j]);
+                r(0) += g(j) * cfg.a[j] * fi(index) * std::cos(xi(0) + cfg.phi[j]);
             return r;
         }
         default:
@@ -169,7 +171,7 @@ struct UserSpatialMap
             for (int j = 0; j < dim; ++j)
             {
                 r(j) = g(j);
-                acc += 0.3 * cfg.w[j] * g(j);
+                acc += 0.3 * fi(index) * cfg.w[j] * g(j);
             }
             r(dim) = acc;
             return r;
